@@ -117,12 +117,71 @@ type verifCandCfg struct {
 }
 
 func verifCandCfgSym(maxExt int) verifCandCfg {
-	c := verifCandCfg{typ: verifChoice(4), addr: verifChoice(len(verifAddrPool)), network: verifChoice(2)}
+	return verifCandCfgSymK(maxExt, true)
+}
+
+// structure (type, address, transport, related-address form) is case-split
+// only when `split`; the scalar fields are always symbolic.
+// verifCandCfgDec: as verifCandCfgSym but the numeric fields are given by
+// their decimal digits (so that Marshal's %d is modelled exactly).
+var verifDecCombos = []verifCandCfg{
+	{typ: 0, network: 0, addr: 0, relKind: 0},
+	{typ: 0, network: 1, addr: 2, relKind: 0},
+	{typ: 0, network: 0, addr: 4, relKind: 0},
+	{typ: 1, network: 0, addr: 0, relKind: 2},
+	{typ: 1, network: 0, addr: 2, relKind: 1},
+	{typ: 2, network: 0, addr: 3, relKind: 0},
+	{typ: 3, network: 0, addr: 0, relKind: 2},
+	{typ: 3, network: 1, addr: 1, relKind: 1},
+}
+
+func verifCandCfgDec(maxExt int) verifCandCfg {
+	c := verifDecCombos[verifChoice(len(verifDecCombos))]
+	// one numeric field at a time ranges over all its digit counts; the others
+	// are one symbolic digit (no cross product of digit counts)
+	focus := verifChoice(4)
+	dec := func(f, maxDigits int, max uint64) uint64 {
+		if focus == f {
+			if verifTier() == 0 { // quick: shortest and longest renderings
+				if verifChoice(2) == 0 {
+					return verifDecimal(1, 1, 9)
+				}
+				return verifDecimal(maxDigits, maxDigits, max)
+			}
+			return verifDecimal(1, maxDigits, max)
+		}
+		return verifDecimal(1, 1, 9)
+	}
+	c.port = int(dec(0, 5, 65535))
+	c.component = uint16(dec(1, 5, 65535))
+	c.priority = uint32(dec(2, 10, 0xFFFFFFFF))
+	c.tcpType = TCPType(verifInt(0, 3))
+	c.relPort = int(dec(3, 5, 65535))
+	c.nExt = verifChoice(maxExt + 1)
+	for i := 0; i < c.nExt; i++ {
+		c.extK = append(c.extK, verifString(1))
+		c.extV = append(c.extV, verifString(1))
+	}
+	return c
+}
+
+func verifCandCfgSymK(maxExt int, split bool) verifCandCfg {
+	c := verifCandCfg{}
+	if split {
+		c = verifCandCfg{typ: verifChoice(4), network: verifChoice(2)}
+		if verifTier() == 0 {
+			c.addr = 2 * verifChoice(3) // IPv4, IPv6, mDNS
+		} else {
+			c.addr = verifChoice(len(verifAddrPool))
+		}
+	}
 	c.port = verifInt(0, 65535)
 	c.component = verifU16()
 	c.priority = verifU32()
 	c.tcpType = TCPType(verifInt(0, 3))
-	c.relKind = verifChoice(3)
+	if split {
+		c.relKind = verifChoice(2+verifTier()) * (2 - verifTier()) // quick: none / 192.168.1.1; thorough: also 0.0.0.0
+	}
 	c.relPort = verifInt(0, 65535)
 	c.nExt = verifChoice(maxExt + 1)
 	for i := 0; i < c.nExt; i++ {
@@ -160,10 +219,7 @@ func verifBuildCand(c verifCandCfg) Candidate {
 	if err != nil {
 		panic("verif: constructor: " + err.Error())
 	}
-	b := verifBaseOf(cand)
-	if c.typ != 0 {
-		b.tcpType = c.tcpType
-	}
+	b := verifBaseOf(cand) // TCP types exist on host candidates only (public constructors)
 	for i := 0; i < c.nExt; i++ {
 		b.extensions = append(b.extensions, CandidateExtension{Key: c.extK[i], Value: c.extV[i]})
 	}
@@ -173,8 +229,32 @@ func verifBuildCand(c verifCandCfg) Candidate {
 // (b) Equal and DeepEqual are reflexive and symmetric, DeepEqual implies Equal.
 func verifC16Equality() {
 	maxExt := 1 + verifTier()
-	c1 := verifBuildCand(verifCandCfgSym(maxExt))
-	c2 := verifBuildCand(verifCandCfgSym(maxExt))
+	cfg1 := verifCandCfgSym(maxExt)
+	// the second candidate differs from the first field by field (same or an
+	// alternative), so that equal and unequal pairs are both explored
+	cfg2 := verifCandCfgSymK(maxExt, false)
+	if verifChoice(2) == 0 {
+		cfg2.typ = cfg1.typ
+	} else {
+		cfg2.typ = (cfg1.typ + 1) % 4
+	}
+	if verifChoice(2) == 0 {
+		cfg2.addr = cfg1.addr
+	} else {
+		cfg2.addr = (cfg1.addr + 1) % len(verifAddrPool)
+	}
+	if verifChoice(2) == 0 {
+		cfg2.network = cfg1.network
+	} else {
+		cfg2.network = 1 - cfg1.network
+	}
+	if verifChoice(2) == 0 {
+		cfg2.relKind = cfg1.relKind
+	} else {
+		cfg2.relKind = (cfg1.relKind + 1) % 3
+	}
+	c1 := verifBuildCand(cfg1)
+	c2 := verifBuildCand(cfg2)
 	hasTCP := verifBaseOf(c1).tcpType != TCPTypeUnspecified
 	verifAssert(c1.Equal(c1), "Equal-reflexive")
 	verifAssertKnown(c1.DeepEqual(c1), "DeepEqual-reflexive", "C16-deepequal-tcptype", hasTCP)
@@ -281,13 +361,13 @@ func verifC16Extensions() {
 
 // (d) Marshal then UnmarshalCandidate yields an equal candidate with the same fields.
 func verifC16RoundTrip() {
-	cfg := verifCandCfgSym(1)
+	cfg := verifCandCfgDec(1)
 	verifAssume(cfg.priority != 0) // 0 means "compute": explicit priorities only here
 	for i := 0; i < cfg.nExt; i++ {
 		verifAssume(verifAnd(verifExtByteOK(cfg.extK[i][0]), verifExtByteOK(cfg.extV[i][0])))
 	}
-	if cfg.network == 0 {
-		cfg.tcpType = TCPTypeUnspecified
+	if cfg.relKind == 0 {
+		cfg.relPort = 0 // "no related address" is ("", 0)
 	}
 	c := verifBuildCand(cfg)
 	text := c.Marshal()
@@ -309,7 +389,7 @@ func verifC16RoundTrip() {
 		verifReach("related")
 		verifAssert(rb != nil && rb.Address == ra.Address && rb.Port == ra.Port, "related-address-round-trips")
 	}
-	verifAssertKnown(c.Equal(p) && p.Equal(c), "parsed-candidate-Equal-to-original", "C16-roundtrip-related-address-zero", verifAnd(cfg.typ != 0, verifOr(cfg.relKind == 0, cfg.relPort == 0)))
+	verifAssertKnown(c.Equal(p) && p.Equal(c), "parsed-candidate-Equal-to-original", "C16-roundtrip-related-address-zero", verifAnd(cfg.typ != 0, verifAnd(cfg.relKind != 0, cfg.relPort == 0)))
 	verifReach("done")
 }
 
